@@ -40,6 +40,14 @@ Theorem C07_frame_reach : forall c h2 m st v, writes_fixed c = true -> Inv m -> 
   In v (values (fst r)) /\ reach (fst r) v = reach m v /\ forall l, In l (reach m v) -> snd r l = st l.
 Proof. exact frame_history. Qed.
 
+(* the process-wide objects of the library -- (OMod, 0) = DEFAULT_TYPES, (OMod, 1) = module globals, class attributes
+   and default-argument objects such as the dict of PDDLFunction.__init__(repeating_variables={}) -- are written by no
+   operation, whatever the model state and store the history starts from: what one domain's calls leave there is what
+   every other domain of the process finds there *)
+Theorem C07_module_frame : forall c h m st i, writes_fixed c = true ->
+  snd (run c h (m, st)) (OMod, i) = st (OMod, i).
+Proof. exact module_frame. Qed.
+
 (* repeat: whatever a call computes from the cells reachable from its input values vs, it computes the same
    after any further history h2 (same cells, same contents) *)
 Theorem C07_repeat : forall c h1 h2 vs, writes_fixed c = true ->
@@ -132,6 +140,7 @@ Proof. exact refuted_D17. Qed.
 Print Assumptions C07_writes_private.
 Print Assumptions C07_frame.
 Print Assumptions C07_frame_reach.
+Print Assumptions C07_module_frame.
 Print Assumptions C07_repeat.
 Print Assumptions C07_frame_nonvacuous.
 Print Assumptions C07_separation_partial.
